@@ -473,9 +473,8 @@ Proof.
   unfold caller_chain. rewrite <- map_app. f_equal. exact H.
 Qed.
 
-(* well-formed worlds: frames are distinct objects; a running child greenlet sees its parent *)
-Definition wf (w : world) : Prop :=
-  NoDup (concat (all_chains w)) /\ (w_parents w <> [] -> w_parent_active w = true).
+(* well-formed worlds: frames are pairwise distinct objects *)
+Definition wf (w : world) : Prop := NoDup (concat (all_chains w)).
 
 Lemma wf_nodup_thread w : NoDup (concat (all_chains w)) -> NoDup (thread_frames w).
 Proof.
@@ -484,18 +483,26 @@ Proof.
   apply NoDup_app_r in H. rewrite app_assoc in H. apply NoDup_app_l in H. exact H.
 Qed.
 
-Lemma chain_from_main w p b :
-  w_parents w = [] -> NoDup (concat (all_chains w)) ->
-  index_of p (thread_frames w) = Some b -> chain_from w p = skipn b (thread_frames w).
+Lemma chain_from_cur w p b :
+  NoDup (concat (all_chains w)) -> index_of p (caller_chain w) = Some b ->
+  chain_from w p = skipn b (caller_chain w).
 Proof.
-  intros Hp ND Hb. unfold chain_from, all_chains, thread_frames in *. rewrite Hp in *. simpl in *.
-  rewrite app_nil_r in *. destruct (cur_split w) as [pre E]. rewrite E in *.
+  intros ND Hb. unfold chain_from, all_chains in *. simpl in *.
+  destruct (cur_split w) as [pre E]. rewrite E in *.
   assert (Hin : In p (caller_chain w)).
   { destruct (index_of_Some _ _ _ Hb) as [H _]. eapply nth_error_In; eauto. }
   assert (Hn : ~ In p pre).
   { intros HI. rewrite <- app_assoc in ND. eapply (NoDup_app_disj _ _ p ND HI). apply in_or_app. auto. }
   rewrite suffix_from_app_notin by exact Hn.
   rewrite (suffix_from_index _ _ _ Hb). reflexivity.
+Qed.
+
+Lemma chain_from_main w p b :
+  w_parents w = [] -> NoDup (concat (all_chains w)) ->
+  index_of p (thread_frames w) = Some b -> chain_from w p = skipn b (thread_frames w).
+Proof.
+  intros Hp ND Hb. unfold thread_frames in *. rewrite Hp in *. simpl in *. rewrite app_nil_r in *.
+  apply chain_from_cur; assumption.
 Qed.
 
 (* ------------------------------------------------------------------ main theorem *)
@@ -532,27 +539,28 @@ Proof.
   intros [= ->]. rewrite Nat.eqb_refl. reflexivity.
 Qed.
 
-Theorem slice_exact w o i lim :
+Lemma has_parent_false w : has_parent w = false -> w_parents w = [].
+Proof. unfold has_parent. destruct (w_parents w); simpl; [reflexivity|discriminate]. Qed.
+
+(* both code paths, in positions *)
+Lemma slice_exact_pos w o i lim a b :
   wf w -> true_caller w <> None ->
-  anchor_ok w o -> anchor_ok w i -> ordered w o i -> limit_ok lim ->
+  apos (thread_frames w) o = Some a -> bpos (thread_frames w) i = Some b ->
+  b <= a -> b < length (thread_frames w) -> limit_ok lim ->
   unwrap_stackslice w {| s_outer := o; s_inner := i; s_limit := lim |}
-  = SFrames (keep_limit lim o i (between o i (true_stack w))).
+  = SFrames (keep_limit lim o i (pos_slice (thread_frames w) a b)).
 Proof.
-  intros [ND Hact] Htc Ho Hi Hord Hlim.
-  pose proof (wf_nodup_thread w ND) as NDT.
+  intros ND Htc Ha Hb Hle Hbl Hlim. unfold wf in ND.
   destruct (true_caller w) as [tc|] eqn:Etc; [clear Htc|congruence].
   assert (Hne : thread_frames w <> []).
   { pose proof (true_caller_hd w tc Etc) as H. intros E. rewrite E in H. discriminate. }
-  destruct (positions w o i NDT Hne Ho Hi Hord) as [a [b [Ha [Hb [Hle Hbl]]]]].
-  unfold true_stack. rewrite (between_pos _ o i a b NDT Ha Hb Hle).
   pose proof (pos_slice_not_nil (thread_frames w) a b Hle Hbl) as Hnn.
   unfold unwrap_stackslice. simpl s_outer. simpl s_inner. simpl s_limit. rewrite Etc. simpl is_some at 1.
   rewrite andb_false_r.
-  destruct (w_parent_active w) eqn:Eact.
+  destruct (has_parent w) eqn:Eact.
   - rewrite (greenlet_branch_pos w o i a b Hne Ha Hb Hle Hbl). rewrite Hnn. cbv iota beta. rewrite Hnn. rewrite andb_false_l. cbv iota beta.
     rewrite Hnn. rewrite apply_limit_spec by exact Hlim. reflexivity.
-  - assert (Hp : w_parents w = []).
-    { destruct (w_parents w) eqn:E; [reflexivity|]. exfalso. assert (false = true) by (apply Hact; discriminate). discriminate. }
+  - pose proof (has_parent_false w Eact) as Hp.
     simpl is_nil at 1. cbv iota.
     assert (Hs : exists p, match i with Some i0 => Some i0 | None => Some tc end = Some p
                            /\ index_of p (thread_frames w) = Some b).
@@ -563,6 +571,22 @@ Proof.
     rewrite (chain_from_main w p b Hp ND Hpb).
     rewrite (try_chain_pos _ o a b Ha Hle). rewrite Hnn. rewrite andb_false_l. cbv iota beta.
     rewrite Hnn. rewrite apply_limit_spec by exact Hlim. reflexivity.
+Qed.
+
+Theorem slice_exact w o i lim :
+  wf w -> true_caller w <> None ->
+  anchor_ok w o -> anchor_ok w i -> ordered w o i -> limit_ok lim ->
+  unwrap_stackslice w {| s_outer := o; s_inner := i; s_limit := lim |}
+  = SFrames (keep_limit lim o i (between o i (true_stack w))).
+Proof.
+  intros ND Htc Ho Hi Hord Hlim.
+  pose proof (wf_nodup_thread w ND) as NDT.
+  assert (Hne : thread_frames w <> []).
+  { destruct (true_caller w) as [tc|] eqn:Etc; [|congruence].
+    pose proof (true_caller_hd w tc Etc) as H. intros E. rewrite E in H. discriminate. }
+  destruct (positions w o i NDT Hne Ho Hi Hord) as [a [b [Ha [Hb [Hle Hbl]]]]].
+  unfold true_stack. rewrite (between_pos _ o i a b NDT Ha Hb Hle).
+  apply slice_exact_pos; assumption.
 Qed.
 
 (* ------------------------------------------------------------------ corollaries *)
@@ -605,7 +629,7 @@ Proof. induction l as [|f l IH]; simpl; [reflexivity|]. destruct (skipped f); si
 
 Lemma own_disjoint w f : wf w -> In f (own_frames w) -> ~ In f (true_stack w).
 Proof.
-  intros [ND _] HI. unfold true_stack. rewrite <- in_rev.
+  intros ND HI. unfold wf in ND. unfold true_stack. rewrite <- in_rev.
   unfold all_chains in ND. simpl in ND. unfold own_frames in HI. unfold thread_frames, caller_chain.
   rewrite (take_drop_mine (w_cur w)) in ND. rewrite map_app in ND.
   rewrite concat_app in ND. rewrite <- !app_assoc in ND.
@@ -641,44 +665,14 @@ Proof.
   intros Hown. exact (own_disjoint w f Hwf Hown Hf).
 Qed.
 
-(* ------------------------------------------------------------------ recorded deviations *)
-
-(* F13: outer on another thread + limit keeps the innermost frames, not the ones nearest outer *)
-Definition w13 : world :=
-  {| w_cur := [Build_cframe 50 "stackscope._glue" false; Build_cframe 2 "app" false;
-               Build_cframe 1 "app" false];
-     w_parent_active := false; w_parents := [];
-     w_threads := [(true, []); (false, [12; 11; 10])]; w_chains := [] |}.
-
-Lemma F13_refuted :
-  unwrap_stackslice w13 {| s_outer := Some 10; s_inner := None; s_limit := Some 1%Z |} = SFrames [12]
-  /\ keep_limit (Some 1%Z) (Some 10) None (between (Some 10) None [10; 11; 12]) = [10].
-Proof. split; vm_compute; reflexivity. Qed.
-
-(* F14: the running greenlet's parent was never started: bool(parent) is False, the walk through
-   the parents is skipped although an exception would reach the grandparent's frames *)
-Definition w14 : world :=
-  {| w_cur := [Build_cframe 50 "stackscope._glue" false; Build_cframe 3 "app" false;
-               Build_cframe 2 "app" false];
-     w_parent_active := false; w_parents := [[]; [1; 0]];
-     w_threads := [(true, [])]; w_chains := [] |}.
-
-Lemma F14_refuted :
-  run_api w14 (ASince None) = AOk (SFrames [2; 3]) /\ true_stack w14 = [0; 1; 2; 3]
-  /\ NoDup (concat (all_chains w14)) /\ ~ wf w14.
-Proof.
-  split; [vm_compute; reflexivity|]. split; [vm_compute; reflexivity|]. split.
-  - vm_compute. repeat (constructor; [simpl; intuition discriminate|]). constructor.
-  - intros [_ H]. simpl in H. assert (false = true) by (apply H; discriminate). discriminate.
-Qed.
-
-(* a non-trivial world meeting every hypothesis of slice_exact: three nested greenlets, a frame
+(* a non-trivial world meeting every hypothesis of slice_exact: nested greenlets (one parent
+   never started), a frame
    of a module named like stackscope's tests, own frames incl. the singledispatch wrapper *)
 Definition w_ex : world :=
   {| w_cur := [Build_cframe 50 "stackscope._glue" false; Build_cframe 51 "functools" true;
                Build_cframe 52 "stackscope._extract" false;
                Build_cframe 7 "stackscope._tests.x" false; Build_cframe 6 "app" false];
-     w_parent_active := true; w_parents := [[5; 4; 3]; [2; 1; 0]];
+     w_parents := [[5; 4; 3]; []; [2; 1; 0]];
      w_threads := [(true, []); (false, [12; 11; 10])]; w_chains := [[20]] |}.
 
 Example w_ex_ok :
@@ -687,7 +681,7 @@ Example w_ex_ok :
   /\ unwrap_stackslice w_ex {| s_outer := Some 1; s_inner := Some 6; s_limit := Some 2%Z |} = SFrames [5; 6].
 Proof.
   split.
-  { split; [|reflexivity]. vm_compute. repeat (constructor; [simpl; intuition discriminate|]). constructor. }
+  { unfold wf. vm_compute. repeat (constructor; [simpl; intuition discriminate|]). constructor. }
   split; [reflexivity|]. split; [vm_compute; tauto|]. split; [vm_compute; tauto|].
   split; [vm_compute; tauto|]. split; [simpl; lia|]. vm_compute. reflexivity.
 Qed.
@@ -716,4 +710,217 @@ Lemma until_int_limit w i lim :
 Proof.
   intros Hwf Htc Hi Hlim. simpl.
   rewrite (slice_exact w None (Some i) lim Hwf Htc I Hi I Hlim). reflexivity.
+Qed.
+
+(* ------------------------------------------------------------------ outer on another thread *)
+
+Lemma try_chain_in o ch k :
+  NoDup ch -> index_of o ch = Some k -> try_chain (Some o) ch = from_anchor o (rev ch).
+Proof.
+  intros ND Hk. unfold try_chain. rewrite (take_until_index _ _ _ Hk).
+  apply rev_firstn_from_anchor; assumption.
+Qed.
+
+Lemma try_chain_notin o ch : ~ In o ch -> try_chain (Some o) ch = [].
+Proof.
+  intros H. unfold try_chain. rewrite take_until_none; [reflexivity|].
+  destruct (index_of o ch) eqn:E; [|reflexivity].
+  exfalso. apply H. destruct (index_of_Some _ _ _ E) as [Hn _]. eapply nth_error_In; eauto.
+Qed.
+
+Lemma from_anchor_not_nil o l : In o l -> is_nil (from_anchor o l) = false.
+Proof.
+  induction l as [|x l IH]; simpl; [tauto|]. intros H. destruct (o =? x) eqn:E; [reflexivity|].
+  apply IH. destruct H as [H|H]; [|exact H]. subst. rewrite Nat.eqb_refl in E. discriminate.
+Qed.
+
+Lemma search_threads_cons o me ch r :
+  search_threads o ((me, ch) :: r) =
+  if me then search_threads o r
+  else if is_nil (try_chain o ch) then search_threads o r else try_chain o ch.
+Proof. reflexivity. Qed.
+
+Lemma search_threads_found o pre ch post :
+  (forall me c, In (me, c) pre -> me = true \/ ~ In o c) ->
+  NoDup ch -> In o ch ->
+  search_threads (Some o) (pre ++ (false, ch) :: post) = from_anchor o (rev ch).
+Proof.
+  intros Hpre ND Hin. induction pre as [|[me c] pre IH]; simpl app; rewrite search_threads_cons.
+  - destruct (index_of_In _ _ Hin) as [k [Hk _]]. rewrite (try_chain_in o ch k ND Hk).
+    rewrite from_anchor_not_nil by (rewrite <- in_rev; exact Hin). reflexivity.
+  - assert (IH' : search_threads (Some o) (pre ++ (false, ch) :: post) = from_anchor o (rev ch)).
+    { apply IH. intros me' c' H. apply (Hpre me' c'). right. exact H. }
+    destruct me; [exact IH'|].
+    destruct (Hpre false c (or_introl eq_refl)) as [H|H]; [discriminate|].
+    rewrite (try_chain_notin o c H). simpl is_nil. cbv iota. exact IH'.
+Qed.
+
+(* StackSlice(outer=<frame of another thread>, limit=n): that thread's frames from outer to its
+   innermost frame, and a limit keeps the n frames nearest OUTER *)
+Theorem other_thread_outer w o lim pre ch post :
+  wf w -> true_caller w <> None ->
+  w_threads w = pre ++ (false, ch) :: post ->
+  (forall me c, In (me, c) pre -> me = true \/ ~ In o c) ->
+  In o ch -> ~ In o (thread_frames w) -> limit_ok lim ->
+  unwrap_stackslice w {| s_outer := Some o; s_inner := None; s_limit := lim |}
+  = SFrames (keep_limit lim (Some o) None (from_anchor o (rev ch))).
+Proof.
+  intros ND Htc Hth Hpre Hin Hnot Hlim. unfold wf in ND.
+  destruct (true_caller w) as [tc|] eqn:Etc; [clear Htc|congruence].
+  assert (NDch : NoDup ch).
+  { unfold all_chains in ND. simpl in ND. rewrite Hth in ND. rewrite map_app in ND. simpl in ND.
+    rewrite !concat_app in ND. simpl in ND.
+    apply NoDup_app_r in ND. apply NoDup_app_r in ND. apply NoDup_app_l in ND.
+    apply NoDup_app_r in ND. apply NoDup_app_l in ND. exact ND. }
+  assert (Hgb : greenlet_branch w (Some o) None = []).
+  { unfold greenlet_branch. destruct (index_of o (thread_frames w)) eqn:E; [|reflexivity].
+    exfalso. apply Hnot. destruct (index_of_Some _ _ _ E) as [Hn _]. eapply nth_error_In; eauto. }
+  assert (Htcc : index_of tc (caller_chain w) = Some 0).
+  { unfold true_caller in Etc. destruct (caller_chain w); simpl in *; [discriminate|].
+    injection Etc as ->. rewrite Nat.eqb_refl. reflexivity. }
+  assert (Htry : try_chain (Some o) (chain_from w tc) = []).
+  { rewrite (chain_from_cur w tc 0 ND Htcc). simpl skipn. apply try_chain_notin.
+    intros H. apply Hnot. unfold thread_frames. apply in_or_app. left. exact H. }
+  unfold unwrap_stackslice. simpl s_outer. simpl s_inner. simpl s_limit. rewrite Etc. simpl is_some.
+  rewrite andb_false_r. rewrite Hgb.
+  replace (if has_parent w then [] else []) with (@nil nat) by (destruct (has_parent w); reflexivity).
+  simpl is_nil at 1. cbv iota. rewrite Htry. simpl.
+  rewrite Hth. rewrite (search_threads_found o pre ch post Hpre NDch Hin).
+  rewrite from_anchor_not_nil by (rewrite <- in_rev; exact Hin).
+  rewrite (apply_limit_spec _ lim (Some o) None Hlim). reflexivity.
+Qed.
+
+Definition w_thr : world :=
+  {| w_cur := [Build_cframe 50 "stackscope._glue" false; Build_cframe 2 "app" false;
+               Build_cframe 1 "app" false];
+     w_parents := [];
+     w_threads := [(true, []); (false, [22; 21; 20]); (false, [12; 11; 10])]; w_chains := [] |}.
+
+Example w_thr_ok :
+  wf w_thr /\ unwrap_stackslice w_thr {| s_outer := Some 10; s_inner := None; s_limit := Some 2%Z |}
+              = SFrames [10; 11].
+Proof.
+  split; [|vm_compute; reflexivity].
+  unfold wf. vm_compute. repeat (constructor; [simpl; intuition discriminate|]). constructor.
+Qed.
+
+(* ------------------------------------------------------------------ f_back reachability *)
+
+Lemma index_of_app_in x c L k : index_of x c = Some k -> index_of x (c ++ L) = Some k.
+Proof.
+  revert k. induction c as [|y c IH]; simpl; [discriminate|]. intros k.
+  destruct (x =? y); [auto|].
+  destruct (index_of x c) as [j|]; simpl; [|discriminate]. intros [= <-].
+  rewrite (IH j eq_refl). reflexivity.
+Qed.
+
+Lemma index_of_app_notin' x A L :
+  ~ In x A -> index_of x (A ++ L) = option_map (Nat.add (length A)) (index_of x L).
+Proof.
+  induction A as [|y A IH]; simpl; intros H.
+  - destruct (index_of x L); reflexivity.
+  - destruct (x =? y) eqn:E; [apply Nat.eqb_eq in E; subst; tauto|].
+    rewrite IH by tauto. destruct (index_of x L); reflexivity.
+Qed.
+
+Lemma In_dec_nat (x : nat) l : In x l \/ ~ In x l.
+Proof. destruct (in_dec Nat.eq_dec x l); auto. Qed.
+
+(* the f_back chain of a frame found at position b of the concatenated chains is a prefix of
+   what follows position b (it ends where its own chain ends) *)
+Lemma find_chain_concat cs rest x b :
+  index_of x (concat cs) = Some b ->
+  exists n, find_chain x (cs ++ rest) = firstn n (skipn b (concat cs)).
+Proof.
+  revert b. induction cs as [|c r IH]; intros b Hb; simpl in *; [discriminate|].
+  destruct (In_dec_nat x c) as [Hin|Hnot].
+  - destruct (index_of_In _ _ Hin) as [k [Hk Hkl]].
+    rewrite (index_of_app_in _ _ _ _ Hk) in Hb. injection Hb as <-.
+    rewrite (suffix_from_index _ _ _ Hk).
+    exists (length (skipn k c)). rewrite skipn_app.
+    replace (k - length c) with 0 by lia. simpl skipn at 2.
+    rewrite firstn_app. rewrite Nat.sub_diag. simpl firstn at 2. rewrite app_nil_r.
+    rewrite firstn_all. reflexivity.
+  - rewrite (suffix_from_none _ _ Hnot).
+    rewrite (index_of_app_notin' _ _ _ Hnot) in Hb.
+    destruct (index_of x (concat r)) as [j|] eqn:Ej; cbn [option_map] in Hb; [|discriminate]. injection Hb as <-.
+    destruct (IH j eq_refl) as [n Hn]. exists n. rewrite Hn.
+    rewrite skipn_app.
+    replace (skipn (length c + j) c) with (@nil nat) by (symmetry; apply skipn_all2; lia).
+    replace (length c + j - length c) with j by lia. reflexivity.
+Qed.
+
+Lemma chain_from_thread w i b :
+  wf w -> index_of i (thread_frames w) = Some b ->
+  exists n, chain_from w i = firstn n (skipn b (thread_frames w)).
+Proof.
+  intros ND Hb. unfold wf in ND. unfold chain_from, all_chains.
+  change (map cf_id (w_cur w) :: w_parents w ++ map snd (w_threads w) ++ w_chains w)
+    with ((map cf_id (w_cur w) :: w_parents w) ++ (map snd (w_threads w) ++ w_chains w)).
+  destruct (cur_split w) as [pre E].
+  assert (HT : concat (map cf_id (w_cur w) :: w_parents w) = pre ++ thread_frames w).
+  { simpl. rewrite E. unfold thread_frames. rewrite app_assoc. reflexivity. }
+  assert (Hin : In i (thread_frames w)).
+  { destruct (index_of_Some _ _ _ Hb) as [H _]. eapply nth_error_In; eauto. }
+  assert (Hn : ~ In i pre).
+  { unfold all_chains in ND. simpl in ND. rewrite E in ND. rewrite concat_app in ND.
+    rewrite <- !app_assoc in ND. intros HI. apply (NoDup_app_disj _ _ i ND HI).
+    unfold thread_frames in Hin. apply in_app_or in Hin. apply in_or_app.
+    destruct Hin as [H|H]; [left; exact H|]. right. apply in_or_app. left. exact H. }
+  assert (Hidx : index_of i (concat (map cf_id (w_cur w) :: w_parents w)) = Some (length pre + b)).
+  { rewrite HT. rewrite (index_of_app_notin' _ _ _ Hn). rewrite Hb. reflexivity. }
+  destruct (find_chain_concat _ (map snd (w_threads w) ++ w_chains w) i _ Hidx) as [n Hfc].
+  exists n. rewrite Hfc. rewrite HT. rewrite skipn_app.
+  replace (skipn (length pre + b) pre) with (@nil nat) by (symmetry; apply skipn_all2; lia).
+  replace (length pre + b - length pre) with b by lia. reflexivity.
+Qed.
+
+Lemma index_of_skipn_inv x T b k :
+  NoDup T -> b <= length T -> index_of x (skipn b T) = Some k -> index_of x T = Some (b + k).
+Proof.
+  intros ND Hbl Hk.
+  assert (Hin : In x (skipn b T)).
+  { destruct (index_of_Some _ _ _ Hk) as [H _]. eapply nth_error_In; eauto. }
+  rewrite <- (firstn_skipn b T) in ND |- * at 1.
+  assert (Hn : ~ In x (firstn b T)).
+  { intros HI. exact (NoDup_app_disj _ _ x ND HI Hin). }
+  rewrite (index_of_app_notin' _ _ _ Hn). rewrite Hk. simpl. rewrite firstn_length.
+  f_equal. lia.
+Qed.
+
+(* extract_until(inner, limit=frame), full statement: a limit reachable from inner by f_back is
+   the first frame of the result, which is the slice limit..inner of the true stack; an
+   unreachable one raises *)
+Theorem until_frame_limit w i lim :
+  wf w -> true_caller w <> None -> In i (true_stack w) ->
+  (In lim (chain_from w i) ->
+     run_api w (AUntilF i lim) = AOk (SFrames (between (Some lim) (Some i) (true_stack w)))
+     /\ In lim (true_stack w) /\ In i (from_anchor lim (true_stack w)))
+  /\ (~ In lim (chain_from w i) -> run_api w (AUntilF i lim) = ARaised).
+Proof.
+  intros Hwf Htc Hi. pose proof (wf_nodup_thread w Hwf) as NDT.
+  unfold true_stack in *. rewrite <- in_rev in Hi.
+  destruct (index_of_In _ _ Hi) as [b [Hb Hbl]].
+  split; intros H.
+  - destruct (chain_from_thread w i b Hwf Hb) as [n Hn].
+    assert (Hl : In lim (skipn b (thread_frames w))).
+    { rewrite Hn in H. eapply firstn_incl; eauto. }
+    destruct (index_of_In _ _ Hl) as [k [Hk _]].
+    pose proof (index_of_skipn_inv _ _ _ _ NDT (Nat.lt_le_incl _ _ Hbl) Hk) as Ha.
+    assert (Hle : b <= b + k) by lia.
+    assert (Hlin : In lim (thread_frames w)) by (eapply skipn_incl; eauto).
+    split; [|split].
+    + rewrite (between_pos _ (Some lim) (Some i) (b + k) b NDT Ha Hb Hle).
+      cbn [run_api]. destruct (index_of_In _ _ H) as [k' [Hk' _]]. rewrite (take_until_index _ _ _ Hk').
+      rewrite (slice_exact_pos w (Some lim) (Some i) None (b + k) b Hwf Htc Ha Hb Hle Hbl I).
+      reflexivity.
+    + rewrite <- in_rev. exact Hlin.
+    + rewrite <- (rev_firstn_from_anchor _ _ _ NDT Ha). rewrite <- in_rev.
+      destruct (index_of_Some _ _ _ Hb) as [Hnth _].
+      assert (Hb' : index_of i (firstn (S (b + k)) (thread_frames w)) = Some b)
+        by (apply index_of_firstn; [exact Hb|lia]).
+      destruct (index_of_Some _ _ _ Hb') as [Hn' _]. eapply nth_error_In; eauto.
+  - simpl. rewrite take_until_none; [reflexivity|].
+    destruct (index_of lim (chain_from w i)) eqn:E; [|reflexivity].
+    exfalso. apply H. destruct (index_of_Some _ _ _ E) as [Hn _]. eapply nth_error_In; eauto.
 Qed.
